@@ -29,7 +29,7 @@ INTERPRETER_EVENT_LOOP=$(INTERPRETER_DIR)/event_loop
 INTERPRETER_TYPES=$(INTERPRETER_DIR)/types
 
 # コンパイラフラグ
-CXXFLAGS=-Wall -g -std=c++17
+CXXFLAGS=-Wall -g -std=c++17 -pthread
 CFLAGS=$(CXXFLAGS) -I. -I$(SRC_DIR) -I$(INTERPRETER_DIR)
 
 # AddressSanitizer用フラグ
